@@ -287,21 +287,25 @@ func verifChainWorld(k int) *verifWorld {
 	return w
 }
 
-func verifChain(k int) (*verifWorld, []ltx.Pos) {
+func verifChain(k int) (*verifWorld, []ltx.Pos) { return verifChainN(k, 1) }
+
+// verifChainN: like verifChain with an n0-page database; the chain's
+// transactions rewrite page 1 only.
+func verifChainN(k, n0 int) (*verifWorld, []ltx.Pos) {
 	ctx := context.Background()
 	w := verifNewStore(true)
-	w.img0 = verifImage("img0", 1, false)
+	w.img0 = verifImage("img0", n0, false)
 	w.verifOpenDB(w.img0, 41)
 	db := w.db
 	chain := []ltx.Pos{db.Pos()}
 	for i := 0; i < k; i++ {
 		jf, err := db.CreateJournal()
 		must(err)
-		must(db.WriteJournalAt(ctx, jf, verifJournalHeader(0, 0, 1), 0, 1))
+		must(db.WriteJournalAt(ctx, jf, verifJournalHeader(0, 0, uint32(n0)), 0, 1))
 		dbf, err := db.OpenDatabase(ctx)
 		must(err)
 		p := rt.Bytes("chain", verifP)
-		verifHeaderPage(p, 1, false)
+		verifHeaderPage(p, uint32(n0), false)
 		must(db.WriteDatabaseAt(ctx, dbf, p, 0, 1))
 		must(db.RemoveJournal(ctx))
 		chain = append(chain, db.Pos())
